@@ -121,79 +121,88 @@ def check(src, rep):
             for which, f_, arg in (("body", bo_fn, AObj("Container", {"list_items": items})),
                                    ("frame", fr_fn, AObj("Container", {"information": AObj("Container", {"notification_body": AObj("Container", {"list_items": items}), "DateTime": AObj("Container", {"datetime": ADT})})}))):
                 res = AE.apply(f_, [arg])  # one interpreter state for all lists: module-level tables mutated by an earlier decode are seen by the later ones
-                n_cases += 1
-                desc = f"{which} list with {mt_desc}"
-                if res[0] == "branch" and isinstance(res[1], Res) and res[1].op in ("Gt", "GtE", "Lt", "LtE") and len(res[1].args) == 2 \
-                        and all(isinstance(a_, Sym) and a_.pytype == "datetime" for a_ in res[1].args):
-                    bad5 += 1
-                    V("R5", "clock-ordering", "the meter clock is chosen by ordering two transmitted date-times: one of them can have a deviation (aware datetime) and the other none (naive), and "
-                      "ordering those raises TypeError; when they are comparable the result is not unconditionally the documented one", f"{desc}: condition {res[1]!r}", fnname=f_.node.name)
-                    continue
-                if res[0] in ("undecided", "branch"):
-                    und = f"{desc}: {res[1]!r}"
-                    break
-                if res[0] == "raise":
-                    if res[1] == "KeyError":
+                results_ = [res]
+                if res[0] == "branch" and not (isinstance(res[1], Res) and res[1].op in ("Gt", "GtE", "Lt", "LtE")):
+                    # a condition on abstract values (e.g. whether a date-time has a time zone): every outcome is judged
+                    from sa.parsedworlds import run_valuations
+                    outs_, _tr = run_valuations(AE, f_, [arg], limit=16)
+                    results_ = [r_ for _, r_ in outs_]
+                for res in results_:
+                    n_cases += 1
+                    desc = f"{which} list with {mt_desc}"
+                    if res[0] == "branch" and isinstance(res[1], Res) and res[1].op in ("Gt", "GtE", "Lt", "LtE") and len(res[1].args) == 2 \
+                            and all(isinstance(a_, Sym) and a_.pytype == "datetime" for a_ in res[1].args):
                         bad5 += 1
-                        V("R5", "naming", "the common-name table is indexed without a membership test (unknown OBIS codes raise KeyError)", desc)
-                    elif res[1] in ("AttributeError", "TypeError"):
-                        bad2 += 1
-                        V("R2", "ct-test-type", f"the normaliser raises {res[1]} for a {desc}: the CT test / value handling is not well-typed for this list", desc)
-                    else:
-                        bad5 += 1
-                        V("R5", "normaliser-raises", f"the normaliser raises {res[1]} for a well-formed {desc}", desc)
-                    continue
-                got = res[1]
-                if not isinstance(got, dict):
-                    und = f"{desc}: normaliser does not return a dictionary"
-                    break
-                rlog.add(desc, got)
-                # scaled registers
-                for c, reg in list(cur.items()) + list(ene.items()):
-                    g = got.get(key_of(c), None)
-                    if g is None or not exact(g, reg, table[c]):
-                        other = CT if table is STD else STD
-                        if g is not None and table[c] != other[c] and exact(g, reg, other[c]):
+                        V("R5", "clock-ordering", "the meter clock is chosen by ordering two transmitted date-times: one of them can have a deviation (aware datetime) and the other none (naive), and "
+                          "ordering those raises TypeError; when they are comparable the result is not unconditionally the documented one", f"{desc}: condition {res[1]!r}", fnname=f_.node.name)
+                        continue
+                    if res[0] in ("undecided", "branch"):
+                        und = f"{desc}: {res[1]!r}"
+                        break
+                    if res[0] == "raise":
+                        if res[1] == "KeyError":
+                            bad5 += 1
+                            V("R5", "naming", "the common-name table is indexed without a membership test (unknown OBIS codes raise KeyError)", desc)
+                        elif res[1] in ("AttributeError", "TypeError"):
                             bad2 += 1
-                            V("R2", "ct-selection", "the CT scaling is not applied exactly when the meter type number (text, element 1.1.96.1.1.255) starts with '685' - also after lists of the other kind have been decoded", f"{desc}: {cdr(c)} stored as {g!r}")
-                        elif g is not None and any(exact(g, reg, e) for e in (-3, -2, -1, 1, 2, 3)):
-                            bad4 += 1
-                            V("R3", f"table:{'ct' if is_ct else 'standard'}", "scaling table differs from the documented scaling (currents 10^-2, CT meters 10^-3; energies 10^1)", f"{desc}: {cdr(c)} stored as {g!r}, expected exponent {table[c]}")
-                        elif g == reg:
-                            bad4 += 1
-                            V("R3", "scale-missing", "a register with a documented scaling is stored unscaled: its OBIS code is missing from the scaling table (or the exponent is not looked up by the element's code)", f"{desc}: {cdr(c)} stored as {g!r}")
+                            V("R2", "ct-test-type", f"the normaliser raises {res[1]} for a {desc}: the CT test / value handling is not well-typed for this list", desc)
                         else:
-                            bad4 += 1
-                            V("R4", f"inexact-scaling:exponent{table[c]}", f"for exponent {table[c]} the register is not scaled by an exact idiom "
-                              + ("(multiplying by 10**-n uses a binary approximation: 35 -> 0.35000000000000003)" if table[c] < 0 else "(an exact integer product is required)"), f"{desc}: {cdr(c)} stored as {g!r}")
-                # unscaled / verbatim / names
-                want = {MAN: "Kamstrup", LISTVER: VER, key_of("1.1.0.0.5.255"): MID, key_of("1.1.1.7.0.255"): PWR, key_of("1.1.32.7.0.255"): VOLT, "250.251.252": UNK,
-                        MDT: ADT if which == "frame" else DT}
-                if mt_val is not None:
-                    want[key_of(METER_TYPE)] = mt_val
-                for k, v in want.items():
-                    if k not in got:
+                            bad5 += 1
+                            V("R5", "normaliser-raises", f"the normaliser raises {res[1]} for a well-formed {desc}", desc)
+                        continue
+                    got = res[1]
+                    if not isinstance(got, dict):
+                        und = f"{desc}: normaliser does not return a dictionary"
+                        break
+                    rlog.add(desc, got)
+                    # scaled registers
+                    for c, reg in list(cur.items()) + list(ene.items()):
+                        g = got.get(key_of(c), None)
+                        if g is None or not exact(g, reg, table[c]):
+                            other = CT if table is STD else STD
+                            if g is not None and table[c] != other[c] and exact(g, reg, other[c]):
+                                bad2 += 1
+                                V("R2", "ct-selection", "the CT scaling is not applied exactly when the meter type number (text, element 1.1.96.1.1.255) starts with '685' - also after lists of the other kind have been decoded", f"{desc}: {cdr(c)} stored as {g!r}")
+                            elif g is not None and any(exact(g, reg, e) for e in (-3, -2, -1, 1, 2, 3)):
+                                bad4 += 1
+                                V("R3", f"table:{'ct' if is_ct else 'standard'}", "scaling table differs from the documented scaling (currents 10^-2, CT meters 10^-3; energies 10^1)", f"{desc}: {cdr(c)} stored as {g!r}, expected exponent {table[c]}")
+                            elif g == reg:
+                                bad4 += 1
+                                V("R3", "scale-missing", "a register with a documented scaling is stored unscaled: its OBIS code is missing from the scaling table (or the exponent is not looked up by the element's code)", f"{desc}: {cdr(c)} stored as {g!r}")
+                            else:
+                                bad4 += 1
+                                V("R4", f"inexact-scaling:exponent{table[c]}", f"for exponent {table[c]} the register is not scaled by an exact idiom "
+                                  + ("(multiplying by 10**-n uses a binary approximation: 35 -> 0.35000000000000003)" if table[c] < 0 else "(an exact integer product is required)"), f"{desc}: {cdr(c)} stored as {g!r}")
+                    # unscaled / verbatim / names
+                    want = {MAN: "Kamstrup", LISTVER: VER, key_of("1.1.0.0.5.255"): MID, key_of("1.1.1.7.0.255"): PWR, key_of("1.1.32.7.0.255"): VOLT, "250.251.252": UNK,
+                            MDT: ADT if which == "frame" else DT}
+                    if mt_val is not None:
+                        want[key_of(METER_TYPE)] = mt_val
+                    for k, v in want.items():
+                        if k not in got:
+                            bad5 += 1
+                            if k == LISTVER:
+                                V("R5", "list-version-name", "the element without OBIS code is not stored as list_ver_id", f"{desc} (obis = {empty_obis!r})")
+                            else:
+                                V("R5", "naming", f"an element is not stored under {k!r} (obis_name_map[C.D.E] when known, else C.D.E)", f"{desc}; keys {sorted(map(str, got))[:6]}")
+                        elif got[k] != v:
+                            bad5 += 1
+                            if k == MDT and which == "frame":
+                                V("R5", "apdu-clock", "for frames the meter clock is not unconditionally the APDU date-time (it must override the list's clock element)", f"{desc}: {got[k]!r}", fnname="normalize_parsed_frame")
+                            elif k == MDT:
+                                V("R5", "clock-element", "the clock element is not stored as the decoded datetime", f"{desc}: {got[k]!r}")
+                            elif k == MAN:
+                                V("R5", "manufacturer", "the manufacturer field is not the constant 'Kamstrup'", repr(got[k]))
+                            elif v in (PWR, VOLT, UNK):
+                                V("R4", "unscaled-changed", "a register without scaling entry is not stored unchanged", f"{desc}: {k} stored as {got[k]!r}")
+                            else:
+                                V("R5", "text-not-verbatim", "a text value is transformed before it is stored", f"{desc}: {k} stored as {got[k]!r}")
+                    extra = [k for k in got if k not in want and k not in {key_of(c) for c in CUR + ENE}]
+                    if extra:
                         bad5 += 1
-                        if k == LISTVER:
-                            V("R5", "list-version-name", "the element without OBIS code is not stored as list_ver_id", f"{desc} (obis = {empty_obis!r})")
-                        else:
-                            V("R5", "naming", f"an element is not stored under {k!r} (obis_name_map[C.D.E] when known, else C.D.E)", f"{desc}; keys {sorted(map(str, got))[:6]}")
-                    elif got[k] != v:
-                        bad5 += 1
-                        if k == MDT and which == "frame":
-                            V("R5", "apdu-clock", "for frames the meter clock is not unconditionally the APDU date-time (it must override the list's clock element)", f"{desc}: {got[k]!r}", fnname="normalize_parsed_frame")
-                        elif k == MDT:
-                            V("R5", "clock-element", "the clock element is not stored as the decoded datetime", f"{desc}: {got[k]!r}")
-                        elif k == MAN:
-                            V("R5", "manufacturer", "the manufacturer field is not the constant 'Kamstrup'", repr(got[k]))
-                        elif v in (PWR, VOLT, UNK):
-                            V("R4", "unscaled-changed", "a register without scaling entry is not stored unchanged", f"{desc}: {k} stored as {got[k]!r}")
-                        else:
-                            V("R5", "text-not-verbatim", "a text value is transformed before it is stored", f"{desc}: {k} stored as {got[k]!r}")
-                extra = [k for k in got if k not in want and k not in {key_of(c) for c in CUR + ENE}]
-                if extra:
-                    bad5 += 1
-                    V("R5", "stores-per-element", f"the dictionary has entries no element accounts for: {extra[:3]}", desc)
+                        V("R5", "stores-per-element", f"the dictionary has entries no element accounts for: {extra[:3]}", desc)
+                    if und:
+                        break
             if und:
                 break
         if und:
